@@ -152,7 +152,7 @@ def run(tier, seed, stmts, wd, name="vm"):
         len(scs), sum(1 for sc in scs if sc["ext"] > 1), len(skipped), len(lines), accepted, len(jobs), _hist(lines)))
     return {"scs": scs, "byid": {sc["id"]: sc for sc in scs}, "lines": lines, "rejected": rejected, "states": states, "transitions": trans,
             "shards": len(jobs), "accepted": accepted, "skipped": skipped, "binding_test": bind,
-            "prover_stage_judged": sum(1 for x in lines if x[1] == "accept" and x[2] == "accept" and byid_ext.get(x[0]) == 1 and not cheat.get(x[0]))}
+            "prover_stage_judged": sum(1 for x in lines if x[1] == "accept" and x[2] == "accept" and not cheat.get(x[0]))}
 
 
 def _hist(lines):
